@@ -172,6 +172,9 @@ pub fn gen_txn(r: &mut Rng, w: &Workload, cfg: &Cfg, id: u64, seed: u64) -> (Vec
 }
 
 /// Entry point of `vharness e2-worker`.
+/// serialises the worker's own flush / compaction calls (manual background mode)
+static MAINT: std::sync::Mutex<()> = std::sync::Mutex::new(());
+
 pub fn worker_main(args: &[String]) -> i32 {
     // args: <dir> <seed> <cfg json file> <workload json file> <out json>
     let dir = PathBuf::from(&args[0]);
@@ -230,26 +233,32 @@ pub fn worker_main(args: &[String]) -> i32 {
                 if name == "commit.after_wal" && x % 100 < rp {
                     mark("P hook.rotate");
                     if manual {
-                        relieve(&t);
+                        if let Ok(_one) = MAINT.try_lock() {
+                            relieve(&t);
+                        }
                     }
                     let _ = t.verif_rotate();
                     if !manual {
                         t.verif_wake_background();
                     }
                 } else if name == "commit.after_publish" && manual && (x >> 8) % 100 < fp {
-                    mark("P hook.flush_one");
-                    let _ = t.verif_flush_one();
-                    relieve(&t);
+                    if let Ok(_one) = MAINT.try_lock() {
+                        mark("P hook.flush_one");
+                        let _ = t.verif_flush_one();
+                        relieve(&t);
+                    }
                 }
                 IN.with(|f| f.set(false));
             })));
         }
         let per = (w.txns + w.committers - 1) / w.committers;
+        let bg_failed = std::sync::Arc::new(std::sync::atomic::AtomicBool::new(false));
         let mut handles = vec![];
         for c in 0..w.committers {
             let tree = tree.clone();
             let w = w.clone();
             let cfg = cfg.clone();
+            let bg_failed = bg_failed.clone();
             handles.push(tokio::spawn(async move {
                 let mut r = Rng::new(seed ^ (c as u64 + 1).wrapping_mul(0x51ED_270B));
                 let mut recs = vec![];
@@ -295,13 +304,26 @@ pub fn worker_main(args: &[String]) -> i32 {
                             mark("S");
                         }
                     }
-                    if w.manual_flush_every > 0 && (i + 1) % w.manual_flush_every == 0 {
+                    if w.manual_flush_every > 0 && (i + 1) % w.manual_flush_every == 0 && !bg_failed.load(std::sync::atomic::Ordering::SeqCst) {
+                        {
+                        // the store has ONE flush task and ONE compaction task: never two at once
+                        let _one = MAINT.lock().unwrap_or_else(|e| e.into_inner());
                         mark("P flush.begin");
-                        let _ = tree.verif_flush();
+                        // like the background tasks: after a failure (sticky background error)
+                        // no further flush / compaction is attempted
+                        let mut failed = tree.verif_flush().is_err();
                         for _ in 0..3 {
-                            let _ = tree.verif_compact_once();
+                            if failed {
+                                break;
+                            }
+                            failed = tree.verif_compact_once().is_err();
+                        }
+                        if failed {
+                            mark("P background.failed");
+                            bg_failed.store(true, std::sync::atomic::Ordering::SeqCst);
                         }
                         mark("P flush.end");
+                        }
                         // let the detached WAL clean-up run
                         tokio::time::sleep(std::time::Duration::from_millis(2)).await;
                     }
@@ -320,16 +342,30 @@ pub fn worker_main(args: &[String]) -> i32 {
         }
         // commit order at the public boundary: sequence numbers of the marker keys
         let mut seqs: BTreeMap<u64, u64> = BTreeMap::new();
+        let mut scan_ok = false;
         if let Ok(tx) = tree.begin_with_mode(Mode::ReadOnly) {
             let mut hi = MARK_PREFIX.to_vec();
             *hi.last_mut().unwrap() += 1;
             if let Ok(mut it) = tx.range(MARK_PREFIX, &hi[..]) {
-                let mut ok = it.seek_first().unwrap_or(false);
+                scan_ok = true;
+                let mut ok = match it.seek_first() {
+                    Ok(b) => b,
+                    Err(_) => {
+                        scan_ok = false;
+                        false
+                    }
+                };
                 while ok {
                     let k = it.key();
                     let id: u64 = String::from_utf8_lossy(&k.user_key()[MARK_PREFIX.len()..]).parse().unwrap_or(0);
                     seqs.insert(id, k.seq_num());
-                    ok = it.next().unwrap_or(false);
+                    ok = match it.next() {
+                        Ok(b) => b,
+                        Err(_) => {
+                            scan_ok = false;
+                            false
+                        }
+                    };
                 }
             }
         }
@@ -345,7 +381,7 @@ pub fn worker_main(args: &[String]) -> i32 {
             }
             mark("P close.end");
         }
-        json!({"txns": recs.iter().map(|r| r.to_json()).collect::<Vec<_>>(), "visible_seq": vis, "close_error": close_err,
+        json!({"txns": recs.iter().map(|r| r.to_json()).collect::<Vec<_>>(), "visible_seq": vis, "close_error": close_err, "marker_scan_ok": scan_ok,
                "panics": crate::panics::drain_all()})
     });
     let _ = std::fs::write(&out, serde_json::to_vec(&res).unwrap_or_default());
